@@ -259,4 +259,69 @@ theorem wwLoZeroBits16_spec (a : List Nat) (h : Wf 16 a) :
       rw [this]; exact (u16CTZ_spec x hx).2)
   exact ⟨(wwLoZeroBits_gen (by decide) _ h1 a h).2, (wwLoZeroBits_gen (by decide) _ h2 a h).2⟩
 
+/-! ## FAST(uNNCLZ) / FAST(uNNCTZ) at 32 and 64 bits (all words), and the sizes in the SAFE_FAST
+build at 32- and 64-bit words.  (The SAFE editions at 32 / 64 bits rest on the branch-free uNNWeight;
+they are not proved for all words here — see the report.) -/
+
+theorem u64CLZ_fast_spec (x : Nat) (hx : x < 2 ^ 64) : ClzSpec 64 x (u64CLZ_fast x) :=
+  u64CLZ_fast_gen x hx
+theorem u32CTZ_fast_spec (x : Nat) (hx : x < 2 ^ 32) : CtzSpec 32 x (u32CTZ_fast x) :=
+  u32CTZ_fast_gen x hx
+theorem u64CTZ_fast_spec (x : Nat) (hx : x < 2 ^ 64) : CtzSpec 64 x (u64CTZ_fast x) :=
+  u64CTZ_fast_gen x hx
+
+example : u64CLZ_fast 0x0000000100000000 = 31 ∧ u32CTZ_fast 0x00A00000 = 21 ∧
+    u64CTZ_fast 0x8000000000000000 = 63 ∧ u64CTZ_fast 0 = 64 := by decide
+
+theorem wwSizesF32_spec (a : List Nat) (h : Wf 32 a) :
+    (val 32 a < 2 ^ wwBitSizeF 32 a ∧ (0 < wwBitSizeF 32 a → 2 ^ (wwBitSizeF 32 a - 1) ≤ val 32 a) ∧
+      wwHiZeroBitsF 32 a + wwBitSizeF 32 a = 32 * a.length) ∧
+    ((∀ k, k < wwLoZeroBitsF 32 a → (val 32 a).testBit k = false) ∧
+      (wwLoZeroBitsF 32 a < 32 * a.length → (val 32 a).testBit (wwLoZeroBitsF 32 a) = true)) := by
+  have h1 : ClzOK 32 (wordCLZ_fast 32) :=
+    ClzOK_of_spec (fun x hx => by
+      have : wordCLZ_fast 32 x = u32CLZ_fast x := by simp [wordCLZ_fast]
+      rw [this]; exact u32CLZ_fast_gen x hx)
+  have h2 : CtzOK 32 (wordCTZ_fast 32) :=
+    CtzOK_of_spec (fun x hx => by
+      have : wordCTZ_fast 32 x = u32CTZ_fast x := by simp [wordCTZ_fast]
+      rw [this]; exact u32CTZ_fast_gen x hx)
+  exact ⟨(wwBitSize_gen (by decide) _ h1 a h).2, (wwLoZeroBits_gen (by decide) _ h2 a h).2⟩
+
+theorem wwSizesF64_spec (a : List Nat) (h : Wf 64 a) :
+    (val 64 a < 2 ^ wwBitSizeF 64 a ∧ (0 < wwBitSizeF 64 a → 2 ^ (wwBitSizeF 64 a - 1) ≤ val 64 a) ∧
+      wwHiZeroBitsF 64 a + wwBitSizeF 64 a = 64 * a.length) ∧
+    ((∀ k, k < wwLoZeroBitsF 64 a → (val 64 a).testBit k = false) ∧
+      (wwLoZeroBitsF 64 a < 64 * a.length → (val 64 a).testBit (wwLoZeroBitsF 64 a) = true)) := by
+  have h1 : ClzOK 64 (wordCLZ_fast 64) :=
+    ClzOK_of_spec (fun x hx => by
+      have : wordCLZ_fast 64 x = u64CLZ_fast x := by simp [wordCLZ_fast]
+      rw [this]; exact u64CLZ_fast_gen x hx)
+  have h2 : CtzOK 64 (wordCTZ_fast 64) :=
+    CtzOK_of_spec (fun x hx => by
+      have : wordCTZ_fast 64 x = u64CTZ_fast x := by simp [wordCTZ_fast]
+      rw [this]; exact u64CTZ_fast_gen x hx)
+  exact ⟨(wwBitSize_gen (by decide) _ h1 a h).2, (wwLoZeroBits_gen (by decide) _ h2 a h).2⟩
+
+example : wwBitSizeF 64 [0, 0x10, 0] = 69 ∧ wwLoZeroBitsF 64 [0, 0x10, 0] = 68 ∧
+    wwHiZeroBitsF 64 [0, 0x10, 0] = 123 := by decide
+
+/-! ## wwIsW, wwIsRepW: the SAFE and FAST editions agree and decide what ww.h says -/
+
+/-- wwIsW(a, n, x): `a[0] == x && a[1] == … == a[n-1] == 0` (n = 0: `x == 0`) -/
+theorem wwIsW_spec (a : List Nat) (x : Nat) :
+    wwIsW_fast a x = wwIsW_safe a x ∧
+    (wwIsW_safe a x = true ↔ (a = [] ∧ x = 0) ∨ (∃ as, a = x :: as ∧ ∀ y ∈ as, y = 0)) :=
+  wwIsW_both a x
+
+/-- wwIsRepW(a, n, x): every word equals x (n = 0: `x == 0`) -/
+theorem wwIsRepW_spec (a : List Nat) (x : Nat) :
+    wwIsRepW_fast a x = wwIsRepW_safe a x ∧
+    (wwIsRepW_safe a x = true ↔ (a = [] ∧ x = 0) ∨ (a ≠ [] ∧ ∀ y ∈ a, y = x)) :=
+  wwIsRepW_both a x
+
+example : wwIsW_safe [7, 0, 0] 7 = true ∧ wwIsW_fast [7, 0, 1] 7 = false ∧
+    wwIsRepW_safe [7, 7, 7] 7 = true ∧ wwIsRepW_fast [7, 7, 6] 7 = false ∧
+    wwIsRepW_safe [] 1 = false := by decide
+
 end Bee2V.C05
